@@ -576,7 +576,7 @@ func (c *checker) special(d *docCase) {
 
 	// separator written differently
 	for _, sv := range []string{`, "camliSig":"`, `,"camliSig": "`, `,"camlisig":"`, `,"camliSig":'`, `;"camliSig":"`, `,"camliSig" :"`,
-		",\n\"camliSig\":\"", `,"camliSig":`, `"camliSig":"`, `,"camliSig":""`, `,"camliSig":"`, `,"camliSigX":"`} {
+		",\n\"camliSig\":\"", `,"camliSig":`, `"camliSig":"`, `,"camliSig":""`, `,"camliSigX":"`} {
 		add("separator-variant", "separator", T+sv+S+tail)
 	}
 	// the signature object written differently
